@@ -54,11 +54,13 @@ Definition Spec_IT (c : bytes) : Prop :=
   (dig c 0 + luhn2 (dig c 1) + dig c 2 + luhn2 (dig c 3) + dig c 4 + luhn2 (dig c 5) + dig c 6 +
    luhn2 (dig c 7) + dig c 8 + luhn2 (dig c 9) + dig c 10) mod 10 = 0.
 
-(* BE - enterprise number: 10 digits starting with 0 (or the same without the leading 0), the
-   digit after it not 0; the last two digits are 97 - (first eight digits as a number mod 97) *)
+(* BE - enterprise number: 10 digits starting with 0 or (numbers issued since 2023) with 1, or a
+   number starting with 0 written without that 0; a number starting with 0 does not continue with
+   another 0; the last two digits are 97 - (first eight digits as a number mod 97) *)
 Definition number (c : bytes) (lo hi : nat) : Z := num_of (sub lo hi c).
 Definition Spec_BE10 (c : bytes) : Prop :=
-  List.length c = 10%nat /\ digits_between c 0 10 /\ dig c 0 = 0 /\ dig c 1 <> 0 /\
+  List.length c = 10%nat /\ digits_between c 0 10 /\
+  ((dig c 0 = 0 /\ dig c 1 <> 0) \/ dig c 0 = 1) /\
   number c 8 10 = 97 - (number c 0 8) mod 97.
 Definition Spec_BE (c : bytes) : Prop :=
   Spec_BE10 c \/ (List.length c = 9%nat /\ Spec_BE10 ("0"%byte :: c)).
